@@ -35,8 +35,10 @@ def windows(k, tier):
     W = []
     if k == 1:
         return [([0] * 4, list(range(4)))]
-    nfree = {("quick", 2): 7, ("thorough", 2): 11, ("quick", 3): 6, ("thorough", 3): 9}[(tier, k)]
-    nwin = {("quick", 2): 3, ("thorough", 2): 8, ("quick", 3): 1, ("thorough", 3): 4}[(tier, k)]
+    if k == 2 and tier == "thorough":
+        return [([0] * N, list(range(N)))]          # the whole of M_2: all 65,536 masks
+    nfree = {("quick", 2): 10, ("quick", 3): 8, ("thorough", 3): 12}[(tier, k)]
+    nwin = {("quick", 2): 3, ("quick", 3): 2, ("thorough", 3): 4}[(tier, k)]
     bases = [[1] * N, gc_mask(k) if k % 2 == 0 else [1 if rng.random() < 0.7 else 0 for _ in range(N)], [0] * N]
     while len(bases) < nwin:
         p = rng.choice([0.3, 0.5, 0.7, 0.85])
@@ -197,3 +199,93 @@ def body_wf(e, L, cfg):
     if why:
         return {"status": "viol", "why": "generated graph is not well-formed: " + why, "cex": gen_cex(cfg, mask)}
     return {"status": "ok", "sample": {"mask": mask, "t": cfg["t"], "live": sum(1 for r in rows if any(x >= 0 for x in r))}}
+
+
+def body_exact(e, L, cfg):
+    """C03: exact comparison with the greatest-fixed-point (+ reachability) oracle."""
+    k, t = cfg["k"], cfg["t"]
+    cfg = dict(cfg, want="exact", trim=True)
+    mask, outcome, value, modified, arr = run_generator(e, L, cfg)
+    cex = gen_cex(cfg, mask, {"trim": True})
+    if modified:
+        return {"status": "viol", "why": "input mask modified at positions %s" % modified, "cex": cex}
+    keep = gfp(k, mask, t)
+    if outcome == "exc":
+        return {"status": "viol", "why": "connect_coding_graph raised %s: %s" % (type(value).__name__, value), "cex": cex}
+    if not any(keep):
+        if outcome != "ValueError":
+            return {"status": "viol", "why": "largest closed sub-graph is empty but a graph was returned", "cex": cex}
+        return {"status": "ok", "sample": {"mask": mask, "t": t, "outcome": "ValueError"}}
+    if outcome == "ValueError":
+        return {"status": "viol", "why": "ValueError although the largest closed sub-graph has %d vertices" % sum(keep), "cex": cex}
+    vs, rows = value
+    exp = induced(k, keep)
+    if rows != exp:
+        return {"status": "viol", "why": "accessor differs from the largest closed sub-graph", "cex": cex}
+    # returned vertex description
+    if isinstance(vs, symnp.Arr):
+        vals = [core.concrete_int(x) if core.is_sym(x) else (int(x) if not isinstance(x, bool) else x) for x in vs.fix_len().elems()]
+        if vs.dtype == symnp.BOOL or (t >= 2 and len(vals) == 4 ** k and set(vals) <= {0, 1}):
+            denoted = [i for i, x in enumerate(vals) if x]
+        else:
+            denoted = sorted(vals)
+    else:
+        denoted = sorted(int(x) for x in vs)
+    live = [v for v in range(4 ** k) if any(x >= 0 for x in exp[v])]
+    if denoted != live:
+        return {"status": "viol", "why": "vertex description %s != vertices with arcs %s" % (denoted, live), "cex": cex}
+    # second implementation on latter maps (t >= 2)
+    if t >= 2:
+        symnp.WHERE_POLICY = "concrete"
+        try:
+            m2 = symnp.Arr.new(mask, (4 ** k,), symnp.BOOL if cfg.get("dtype") == "bool" else symnp.INT)
+            try:
+                vg = L.connect_valid_graph(k, m2)
+                lm = L.accessor_to_latter_map(vg)
+                tr = L.latter_map_to_accessor(lm, k, threshold=t)
+                trows = concrete_rows(tr)
+            except core.Abort:
+                raise
+            except Exception as ex:
+                return {"status": "viol", "why": "latter-map trimming raised %s: %s" % (type(ex).__name__, ex), "cex": cex}
+        finally:
+            symnp.WHERE_POLICY = "symlen"
+        if trows != exp:
+            return {"status": "viol", "why": "trimming the latter map to the same threshold gives a different graph", "cex": cex}
+    return {"status": "ok", "sample": {"mask": mask, "t": t, "live": len(live)}}
+
+
+def body_valid(e, L, cfg):
+    """C11(b): connect_valid_graph == induced sub-graph of the mask."""
+    symnp.WHERE_POLICY = "concrete"
+    k = cfg["k"]
+    cfg = dict(cfg, want="valid")
+    try:
+        arr, bools = mask_universe(e, cfg)
+        try:
+            acc = L.connect_valid_graph(k, arr)
+            outcome, value = "ok", concrete_rows(acc)
+        except core.Abort:
+            raise
+        except ValueError as ex:
+            outcome, value = "ValueError", ex
+        except Exception as ex:
+            outcome, value = "exc", ex
+        mask = pin_mask(e, bools)
+        after = [core.concrete_int(x) if core.is_sym(x) else int(x) for x in arr.buf]
+    finally:
+        symnp.WHERE_POLICY = "symlen"
+    cex = gen_cex(cfg, mask)
+    if after != mask:
+        return {"status": "viol", "why": "input mask modified", "cex": cex}
+    if outcome == "exc":
+        return {"status": "viol", "why": "connect_valid_graph raised %s: %s" % (type(value).__name__, value), "cex": cex}
+    if not any(mask):
+        if outcome != "ValueError":
+            return {"status": "viol", "why": "empty mask accepted", "cex": cex}
+        return {"status": "ok", "sample": {"mask": mask, "outcome": "ValueError"}}
+    if outcome == "ValueError":
+        return {"status": "viol", "why": "ValueError on a non-empty mask", "cex": cex}
+    if value != induced(k, [bool(x) for x in mask]):
+        return {"status": "viol", "why": "valid graph differs from the induced sub-graph", "cex": cex}
+    return {"status": "ok", "sample": {"mask": mask, "arcs": sum(1 for r in value for x in r if x >= 0)}}
